@@ -23,6 +23,7 @@ LEVEL_TEXT = ("All interleavings of new/run operations of 2 objects (<=2 runs ea
               "and every thread schedule of 2 threads (complete, no pre-emption bound) and 3 threads (pre-emption bound 2; 3 in the "
               "thorough tier) at statement granularity are executed on the real library; each run must equal the object's solo result."
               " Objects include one whose statements address a table only another object defines and one using the per-lexer \"input.regex\" side channel; results already returned to one object must not change when another object runs; scheduling points are optional seams (a tree that caches the lexer simply has fewer), with a finer point set (constructor end, flag reset, statement end, output shaping) explored under pre-emption bound 2 (thorough 3)."
+              " Wave 7: a debug=True object whose script holds a rejected statement (it must raise whatever silent parser was built before), and the same 5 KiB / 20 KiB script (with an \"input.regex\" value and quoted names) given to two objects with different flags."
               " Solo references are computed by pristine sub-processes (one per object and argument sequence); objects with identical text but different silent / normalize_names settings are part of the alphabet.")
 LEVEL_NOTE = ("Thread exploration is at block granularity (before/after lexer build, after parser build, before each statement, "
               "thread end); completeness rests on shared state (PLY module globals) being written only inside those blocks. "
@@ -56,6 +57,22 @@ OBJ = [
     # a Hive table with an Athena-only clause: what the athena / hql modes report for it must not depend on which mode ran before
     ("CREATE EXTERNAL TABLE e7 (x int) ROW FORMAT DELIMITED FIELDS TERMINATED BY ',' ESCAPED BY '\\\\' STORED AS TEXTFILE LOCATION 's3://a/b';", dict()),
 ]
+OBJ += [
+    # wave 7: index 12 - a debug=True object (documented as "not silent") whose script holds a statement the grammar rejects: it must raise
+    # whatever silent default parser was built before it
+    ("CREATE TABLE t12 (d int);\nCREATE TABLE ( ( ;\nCREATE TABLE u12 (e int);", dict(debug=True)),
+]
+_FILL = "".join("CREATE TABLE fill_%d (id int NOT NULL, label varchar(%d) DEFAULT 'f%d', PRIMARY KEY (id));\n" % (i, 10 + i % 7, i) for i in range(400))
+_BIGTAIL = ("CREATE EXTERNAL TABLE rb (x string) ROW FORMAT SERDE 'a.b.RegexSerDe' WITH SERDEPROPERTIES (\"input.regex\" = \"(a|b) ([0-9]+)\") STORED AS TEXTFILE;\n"
+            'CREATE TABLE "Tb" ("Ka" int, "Kb" varchar(3));\n')
+OBJ += [
+    # indexes 13..16: the same big script (5 KiB / 20 KiB, holding an "input.regex" value and quoted names) given to two objects with
+    # different flags - anything memoised per text instead of per object shows here
+    (_FILL[:5000].rsplit("\n", 1)[0] + "\n" + _BIGTAIL, dict()),
+    (_FILL[:5000].rsplit("\n", 1)[0] + "\n" + _BIGTAIL, dict(normalize_names=True)),
+    (_FILL[:20000].rsplit("\n", 1)[0] + "\n" + _BIGTAIL, dict()),
+    (_FILL[:20000].rsplit("\n", 1)[0] + "\n" + _BIGTAIL, dict(normalize_names=True, silent=False)),
+]
 RUNARGS = [dict(), dict(output_mode="hql", group_by_type=True), dict(output_mode="athena")]
 
 # thread configurations: (object index, run-args index) per thread
@@ -70,6 +87,7 @@ THREADS = {
     "2thr_debug": [(10, 0), (1, 0)],
     "2thr_modes": [(11, 1), (11, 2)],
     "2thr_samenames": [(7, 0), (0, 0)],
+    "2thr_debugerr": [(12, 0), (1, 0)],
     "3thr": [(0, 0), (1, 1), (3, 0)],
     "2thr_fine": [(0, 0), (1, 0)],
 }
@@ -112,6 +130,12 @@ def gen_cases(tier):
     cases = []
     for objs in ([0, 1], [0, 2], [1, 3], [1, 4], [4, 1], [5, 1], [0, 5], [6, 2], [2, 6], [0, 7], [7, 0], [8, 1], [1, 8], [8, 0], [5, 9], [9, 5], [10, 1], [1, 10], [10, 3]):
         for h in histories(2, 2, objs):
+            cases.append({"kind": "ops", "hist": h})
+    for objs in ([12, 1], [1, 12], [12, 6], [6, 12], [12, 2], [13, 14], [14, 13]):
+        for h in histories(2, 2, objs):
+            cases.append({"kind": "ops", "hist": h})
+    for objs in ([15, 16], [16, 15], [13, 15], [16, 14]):
+        for h in histories(2, 2, objs, args=(0,)):
             cases.append({"kind": "ops", "hist": h})
     # output-mode histories (hql <-> athena) across objects
     for objs in ([11, 1], [1, 11], [11, 5], [11, 3]):
